@@ -318,10 +318,8 @@ func runC16(c *eng.Ctx) {
 	c.Rule("PASS", dchT+".Write{every family group reaches its family channel}", func() {
 		f := c.Fn(dchT + ".Write")
 		for i, w := range c.Some(f, invokeOn("", "Write"), "familyChannel.Write(ctx, rows)") {
-			if w.Instr.Parent() != f {
-				continue
-			}
-			everyIterationPasses(c, f, w, fmt.Sprintf("no-family-skipped[%d]", i),
+			host := w.Instr.Parent() // Write itself, or a helper the per-shard part was moved into
+			everyIterationPasses(c, host, w, fmt.Sprintf("no-family-skipped[%d]", i),
 				"every (shard, family) group handed out by the iterator is written: rows outside the window were already removed from the batch, a group is never dropped as a whole because of its first row")
 		}
 	})
